@@ -307,9 +307,52 @@ fn c03(tier: &str) -> PropDef {
             }),
         },
     ];
+    let mut families = families;
+    families.push(Family {
+        name: "faulty-network",
+        count: if quick { 1200 } else { 40_000 },
+        make: Box::new(|seed, idx| {
+            let mut r = Rng::stream(seed, "C03", idx, "network");
+            let mut g = G::new(idx);
+            let replicas = r.range(1, 3) as u8;
+            let n_req = r.range(5, 60) as u32;
+            let steps = crate::net::gen_faulty(&mut r, &mut g, replicas, n_req);
+            let mut cfg = Cfg::basic(seed ^ idx);
+            cfg.replicas = replicas;
+            cfg.scan = ScanMode::None; // every delivery scans the replica
+            world_case(cfg, steps, Fault::None)
+        }),
+    });
+    families.push(Family {
+        name: "hash-straddle-probe",
+        count: if quick { 300 } else { 6_000 },
+        make: Box::new(|seed, idx| {
+            // honest hash requests whose span straddles the replica's length (= upgrade.start)
+            let mut r = Rng::stream(seed, "C03", idx, "straddle");
+            let mut g = G::new(idx);
+            let n = r.range(4, 20) as usize;
+            let mut steps = gen::replica_history(&mut r, &mut g, n, 1);
+            for s in steps.iter_mut() {
+                if let Step::Sync { req, .. } = s {
+                    if req.hash.is_some() {
+                        req.straddle = true;
+                    }
+                }
+            }
+            for _ in 0..4 {
+                let blk = g.blk(&mut r);
+                g.len += 1;
+                steps.push(Step::Append { n: 0, blk });
+                steps.push(Step::Sync { to: 1, req: crate::world::Req { hash: Some(r.next() >> 8), upgrade: Some(r.next() >> 8), straddle: true, ..Default::default() } });
+            }
+            let mut cfg = Cfg::basic(seed ^ idx);
+            cfg.replicas = 1;
+            world_case(cfg, steps, Fault::None)
+        }),
+    });
     PropDef {
         level: "exploration",
-        rule: "strict arm: one writer and 1-3 replicas on a fault-free transport with one outstanding request; each Sync step derives a well-formed request from the replica's CURRENT state (block or tree-node hash that exists on the writer, node count from the replica's own missing_nodes, upgrade from the replica's length when required or drawn, seek in the admitted combinations with the byte offset inside the proven subtree), the writer creates the proof, the replica must accept it (Ok(true)) and afterwards every held block must equal the writer's and (length, byte_length) must equal the writer's at proof creation; a cleared block must yield Ok(None). Replica reopen steps are interleaved. distinct = distinct trace hash; non-trivial = at least one mutating step and one reopen.",
+        rule: "strict arm: one writer and 1-3 replicas on a fault-free transport with one outstanding request; each Sync step derives a well-formed request from the replica's CURRENT state (block or tree-node hash that exists on the writer, node count from the replica's own missing_nodes, upgrade from the replica's length when required or drawn, seek in the admitted combinations with the byte offset inside the proven subtree), the writer creates the proof, the replica must accept it (Ok(true)) and afterwards every held block must equal the writer's and (length, byte_length) must equal the writer's at proof creation; a cleared block must yield Ok(None). Replica reopen steps are interleaved. faulty arm: a discrete-event network simulator (seeded latency/jitter, drop 0-30%, duplicate 0-20%, reorder by independent latencies, per-replica partition windows, replica crash-restart losing 0-5 storage ops of its last call, writer restart, writer growth and clears in between) generates an explicit schedule of send/serve/deliver events; stale or duplicated proofs may be refused but after every delivery the replica is scanned and must be truthful; once faults stop every replica must hold every non-cleared block within 3*missing+10 honest request rounds. distinct = distinct trace hash; non-trivial = at least one mutating step and one reopen/crash-restart/network fault.",
         assumptions: vec![
             "the replicator deciding which request to send is harness code (stub of hypercore-protocol); messages travel as structured values, not bytes",
             "Ed25519/BLAKE2b primitives are trusted",
@@ -844,6 +887,7 @@ pub fn write_evidence(opts: &RunOpts, def: &PropDef, s: &Summary, wall: f64, vio
             "request_classes": s.stats.req_classes,
             "probes": s.stats.probes,
             "aborted_runs_not_judged": s.aborted,
+            "aborted_reasons": s.abort_reasons,
             "known_findings_matched": s.known,
             "components": components(),
             "event_log_hash": format!("{:016x}", s.log_hash),
@@ -883,6 +927,9 @@ pub fn check(opts: &RunOpts, t0: Instant) -> i32 {
     }
     if !s.stats.probes.is_empty() {
         println!("probes: {:?}", s.stats.probes);
+    }
+    if !s.abort_reasons.is_empty() {
+        println!("aborted runs (not judged) by reason: {:?}", s.abort_reasons);
     }
     if reported > 0 {
         1
